@@ -320,4 +320,16 @@ PROPS = {
         ],
         "assumptions": ["a single writer (the controller / filtered-subscription goroutine is the only writer of its cache)"],
     },
+    "C12": {
+        "engines": [tree_engine("c12", ("C12",), None, 1400, 14000), ctrl_engine("", ("C12",), 400, 6000),
+                    tree_engine("step,burst,stall,overflow", ("C12",), None, 600, 8000)],
+        "rule": "tree engine mode c12: shutdown-point enumeration — a workload (attach / events / Refilter / relist / bursts) shared by 14 "
+                "consecutive scenarios, the trigger {Close, 4 concurrent Close, context cancel} fired after step 0..13, every API call "
+                "{Subscribe*, Clone*, Refilter, Cache().List/Get, Close} of every node issued concurrently with the trigger and again after "
+                "it; at quiescence every call must have returned (ErrNotRunning or a value), every object obtained while racing must be "
+                "done, every node done; testing/synctest fails the run if any goroutine of the bubble never finishes (leak / zombie / hang). "
+                "ctrl engine: Close/cancel after watch and list faults (mid-reconnect, blocked Watch, slow list). Non-trivial: observations with events.",
+        "trusted_base": TREE_TB + CTRL_TB,
+        "assumptions": ["client List/Watch return once their context is cancelled", "bounds are in virtual time"],
+    },
 }
